@@ -18,7 +18,7 @@ Opt(ev) == [comments |-> ev.o.comments, nan |-> ev.o.nan, inf |-> ev.o.inf, unic
 RECURSIVE Session(_, _, _, _)
 Session(inp, o, lim, calls) ==
   IF calls = 0 THEN <<>>
-  ELSE LET r == Deserialize(inp, o, lim, TrueV) IN
+  ELSE LET r == DeserializeJson(inp, o, lim, TrueV) IN
        <<[code |-> r.code, v |-> r.v, read |-> r.read]>>
        \o (IF r.code = "Ok" /\ r.read < Len(inp)
            THEN Session(SubSeq(inp, r.read + 1, Len(inp)), o, lim, calls - 1) ELSE <<>>)
@@ -27,8 +27,8 @@ Emit(ev) ==
   IF "session" \in DOMAIN ev
   THEN PrintT(<<"CASE", ToJson([session |-> Session(ev.inp, Opt(ev), ev.lim, ev.session), inp |-> ev.inp,
                                 lim |-> ev.lim, o |-> ev.o, tag |-> ev.tag])>>)
-  ELSE LET r == Deserialize(ev.inp, Opt(ev), ev.lim, ev.f)
-           u == Deserialize(ev.inp, Opt(ev), ev.lim, TrueV) IN
+  ELSE LET r == DeserializeJson(ev.inp, Opt(ev), ev.lim, ev.f)
+           u == DeserializeJson(ev.inp, Opt(ev), ev.lim, TrueV) IN
        PrintT(<<"CASE", ToJson([inp |-> ev.inp, lim |-> ev.lim, f |-> ev.f, o |-> ev.o, code |-> r.code,
                                 v |-> r.v, read |-> r.read, depth |-> r.depth, tag |-> ev.tag,
                                 weird |-> (r.v.t = "#" /\ WeirdNumber(r.v.b)),
